@@ -215,7 +215,38 @@ fn gen_block(rng: &mut Rng) -> Vec<u8> {
     }
 }
 
+/// framed truncations: every sub-packet of a valid compound re-framed alone with its body cut to every length
+/// (length field and RTCP padding adjusted so that the *inner* parser sees the short body)
+fn rtcp_reframed(v: &[u8]) -> Vec<Vec<u8>> {
+    let mut out = vec![];
+    let mut off = 0;
+    while off + 4 <= v.len() {
+        let plen = (u16::from_be_bytes([v[off + 2], v[off + 3]]) as usize + 1) * 4;
+        if off + plen > v.len() { break; }
+        let body = &v[off + 4..off + plen];
+        for k in 0..=body.len() {
+            let words = (k + 3) / 4; let pad = words * 4 - k;
+            let mut p = vec![(v[off] & 0xDF) | if pad > 0 { 0x20 } else { 0 }, v[off + 1]];
+            p.extend_from_slice(&(words as u16).to_be_bytes());
+            p.extend_from_slice(&body[..k]);
+            if pad > 0 { p.extend(std::iter::repeat(0u8).take(pad - 1)); p.push(pad as u8); }
+            out.push(p);
+        }
+        // count field (fmt) larger / smaller than the body provides
+        for fmt in [0u8, 1, 2, 31] { let mut p = v[off..off + plen].to_vec(); p[0] = (p[0] & 0xE0) | fmt; out.push(p); }
+        off += plen;
+    }
+    out
+}
+
 pub fn special(run: &mut Run, rng: &mut Rng, thorough: bool) {
+    {
+        let t = &targets()[1];
+        for _ in 0..(if thorough { 3_000 } else { 120 }) {
+            let v = valid_rtcp(rng);
+            for m in rtcp_reframed(&v) { super::run_bytes(run, t, &m, true); }
+        }
+    }
     let profiles = [0xBEDEu16, 0x1000, 0x1234];
     // exhaustive: every block of length ≤ 1 (≤ 2 thorough) × every id × both profiles
     let mut small: Vec<Vec<u8>> = vec![vec![]];
